@@ -49,6 +49,73 @@ def elem_slice_ok(a, cs):
     return 1 + layers if tstr(t["t"]) == tstr(self_t["args"][0]) else 0
 
 
+EQUAL = ("A", ("adt", "core::cmp::Ordering", 1), ())
+SOME_EQUAL = ("A", ("adt", "core::option::Option", 1), (EQUAL,))
+
+
+def lexicographic_loop(a, method, n):
+    """cmp / partial_cmp written as the lexicographic loop over the two full views (both have N elements, so this IS the slice comparison):
+    for (l, r) in self.iter().zip(other) { match cmp(l, r) { Equal => continue, non_eq => return non_eq } } Equal.
+    Returns None if the body has no such loop at all, else (ok, detail)."""
+    from ..loops import find_loops
+    lps = [lp for lp in find_loops(a) if isinstance(lp.pipe, tuple) and len(lp.pipe) == 5 and lp.pipe[:3] == ("V", "iter", "zip")]
+    if len(lps) != 1:
+        return None
+    lp = lps[0]
+    partial = method.endswith("partial_cmp")
+    want_const = SOME_EQUAL if partial else EQUAL
+
+    def full(side, base):
+        if isinstance(side, tuple) and len(side) == 5 and side[:3] == ("V", "iter", "slice"):
+            return is_full_view(side[3], base, n)
+        return isinstance(side, tuple) and side and side[0] == "P" and is_full_view(side, base, n)
+    sides = full(lp.pipe[3], ("arg", 1)) and full(lp.pipe[4], ("arg", 2)) and not lp.backward
+    calls = [c for c in lp.calls() if c.fn == method]
+    once = lp.count_on_paths(lambda c: c.fn == method) == {1}
+    pay = lp.payload
+    args_ok = len(calls) == 1 and pay[0] == "A" and pay[1] == "tuple" and len(pay[2]) == 2 and calls[0].args[0] == pay[2][0] and calls[0].args[1] == pay[2][1]
+    others = [c.fn for c in lp.calls() if c.fn != method and not a.is_pure(c) and not getattr(c, "no_effects", False) and not c.fn.startswith("core::panicking::")]
+    cont_ok = brk_ok = ret_ok = False
+    if len(calls) == 1:
+        c = calls[0]
+        inner = ("V", "proj", ("proj", c.ret, (("v", 1), 0))) if partial else c.ret
+
+        def is_equal(fs):
+            # switch facts carry discriminant VALUES: Ordering::Equal has discriminant 0 (Less = -1, Greater = 1); Some = 1
+            if partial:
+                return ("variant", c.ret, 1) in fs and ("variant", inner, 0) in fs
+            return ("variant", c.ret, 0) in fs
+        backs = [(x, lp.nxt.bb) for x in lp.blocks if lp.nxt.bb in a.edges.get(x, [])]
+        cont_ok = bool(backs) and all(all(is_equal(fs) for fs in a.edge_facts.get(e, [])) and a.edge_facts.get(e) for e in backs)
+        # leaving the loop in the middle of a step: only with a result that is not Equal, and that result is what is returned
+        brk_ok = bool(lp.breaks) and all(not any(is_equal(fs) for fs in a.edge_facts.get(e, [frozenset()])) for e in lp.breaks)
+        after_none = set()
+        work = list(lp.none_targets)
+        while work:
+            x = work.pop()
+            if x in after_none or a.blocks[x]["cleanup"]:
+                continue
+            after_none.add(x)
+            work.extend(a.edges.get(x, []))
+        ret_ok = bool(a.returns)
+        for r in a.returns:
+            v = r["val"]
+            if v == want_const:
+                continue  # after exhausting both views (or the N == 0 shortcut): equal sequences of equal length
+            if v == c.ret and not is_equal(r["facts"]):
+                continue
+            if v[0] == "V" and v[1] == "phi":
+                # merged return value: every assignment to the return place is one of the two forms
+                vals = [s_["val"] for s_ in a.assigns if s_["cell"] == (("local", 0), ())]
+                if vals and all(x == want_const or x == c.ret for x in vals):
+                    continue
+            ret_ok = False
+    ok = sides and once and args_ok and not others and cont_ok and brk_ok and ret_ok
+    return ok, ("lexicographic loop over zip(full view of self, full view of other): %s; one %s(l, r) per step on the paired items: %s/%s; the next pair is taken only when the result is Equal: %s; "
+                "any other result leaves the loop: %s and is returned, Equal is returned after the last pair: %s; no other effectful call: %s"
+                % (sides, method.split("::")[-1], once, args_ok, cont_ok, brk_ok, ret_ok, not others))
+
+
 def check_delegate(ctx, cfg, key, method, alt, nargs):
     rule = "C13.D"
     b = ctx.body(cfg, key, rule)
@@ -93,6 +160,9 @@ def check_delegate(ctx, cfg, key, method, alt, nargs):
               and en.args[1] == it_.ret and a.dominates(dl.bb, en.bb) and a.dominates(en.bb, fi.bb) and all(r["val"] == fi.ret for r in a.returns))
         status = PROVED if ok else REFUTED
         why = "debug_list().entries(iter over the full view of self).finish() - the body of core's Debug for [T]"
+    elif nargs == 2 and method in ("core::cmp::Ord::cmp", "core::cmp::PartialOrd::partial_cmp") and lexicographic_loop(ctx.analysis_inl(cfg, key, split=True), method, n) is not None:
+        ok, why = lexicographic_loop(ctx.analysis_inl(cfg, key, split=True), method, n)
+        status = PROVED if ok else REFUTED
     else:
         # a different delegate (e.g. hash_slice, a manual loop, reversed iteration): not provably the slice impl
         status = REFUTED if any(c.fn == method for c in pc) else UNKNOWN
